@@ -1,5 +1,6 @@
 From Coq Require Import NArith ZArith List Bool Lia.
-Require Import Board Rules Move.
+Require Import Board Rules Move GameOver.
+Require Import Generated.Consts.
 Import ListNotations.
 
 (* ---- abstraction ---- *)
@@ -29,60 +30,14 @@ Definition apos_eqb (a b : apos) : bool :=
   (wstones a =? wstones b)%N && (wcaps a =? wcaps b)%N && (bstones a =? bstones b)%N && (bcaps a =? bcaps b)%N &&
   (ply a =? ply b)%Z && Bool.eqb (Rules.black_wins_ties a) (Rules.black_wins_ties b).
 
-Definition hsq (i h s : N) : N := (i * 1000003 + h * 10007 + s) mod 2^64.     (* any function will do here *)
+(* the per-square hash of the implementation: hash64(hash8(basis[i], height), stack bits), with the
+   basis table regenerated from /repo (Generated/Consts.v).  The refinement proofs never unfold it. *)
+Definition hsq (i h s : N) : N := hash_sq gen_basis i h s.
 Definition mv := move_prealloc hsq true.
-
-Definition agree (p : position) (m : rmove) : bool :=
-  match mv p m, rules_move (abs p) (raw m) with
-  | Ok p', Some a => apos_eqb (abs p') a
-  | Err, None => true
-  | _, _ => false
-  end.
+Definition mv_pinned := move_prealloc hsq false.
 
 Definition new (sz pieces caps : N) : position :=
   {| size := sz; Move.black_wins_ties := false; whiteStones := pieces; whiteCaps := caps; blackStones := pieces; blackCaps := caps;
      move := 0; White := 0; Black := 0; Standing := 0; Caps := 0;
      Height := repeat 0%N (N.to_nat (sz * sz)); Stacks := repeat 0%N (N.to_nat (sz * sz)); hash := 0 |}.
 
-(* a dense grid of raw moves *)
-Definition coordsZ : list Z := [-128; -2; -1; 0; 1; 2; 3; 4; 5; 6; 8; 51; 127]%Z.
-Definition types : list N := [0; 2; 3; 4; 5; 6; 7; 8; 9; 255]%N.
-Definition slidesL : list N := [0; 1; 2; 3; 5; 17; 18; 33; 273; 257; 16; 4369; 34; 19; 49; 4096+1]%N.
-Definition grid : list rmove :=
-  flat_map (fun x => flat_map (fun y => flat_map (fun t => map (fun s => {| mX := x; mY := y; mT := t; mS := s |}) slidesL) types) coordsZ) coordsZ.
-
-(* play a scripted line, checking agreement of every grid move at every position on the way *)
-Fixpoint walk (p : position) (line : list rmove) : bool :=
-  forallb (agree p) grid &&
-  match line with
-  | [] => true
-  | m :: rest => match mv p m with Ok p' => agree p m && walk p' rest | _ => false end
-  end.
-
-Definition M t x y s := {| mX := x; mY := y; mT := t; mS := s |}.
-Definition line5 : list rmove :=
-  [M 2 0 0 0; M 2 4 4 0; M 2 1 0 0; M 6 0 0 1; M 4 2 2 0; M 3 1 1 0; M 8 2 2 1; M 2 0 0 0; M 5 2 1 1; M 5 1 0 2;
-   M 2 3 3 0; M 4 2 0 0; M 2 1 0 0; M 7 0 0 273; M 2 0 0 0; M 8 0 3 1]%Z%N.
-
-Time Eval vm_compute in length grid.
-Time Eval vm_compute in walk (new 5 21 1) line5.
-Time Eval vm_compute in walk (new 3 10 0) [M 2 0 0 0; M 2 2 2 0; M 2 1 0 0; M 6 0 0 1; M 5 2 2 1; M 7 1 0 2; M 3 0 0 0; M 8 1 1 1]%Z%N.
-
-Fixpoint diag (k : nat) (p : position) (line : list rmove) : list (nat * rmove * bool) :=
-  let bad := filter (fun m => negb (agree p m)) grid in
-  match bad with
-  | m :: _ => [(k, m, true)]
-  | [] =>
-    match line with
-    | [] => []
-    | m :: rest => match mv p m with Ok p' => diag (S k) p' rest | _ => [(k, m, false)] end
-    end
-  end.
-Eval vm_compute in diag 0 (new 5 21 1) line5.
-
-(* the pinned code (no bounds check) is refuted by the model: *)
-Definition agree_pinned (p : position) (m : rmove) : bool :=
-  match move_prealloc hsq false p m, rules_move (abs p) (raw m) with
-  | Ok p', Some a => apos_eqb (abs p') a | Err, None => true | _, _ => false end.
-Definition p2 := match mv (new 5 21 1) (M 2 0 0 0) with Ok q => match mv q (M 2 4 4 0) with Ok r => r | _ => new 5 21 1 end | _ => new 5 21 1 end.
-Eval vm_compute in (agree_pinned p2 (M 2 (-1) 1 0)%Z, move_prealloc hsq false p2 (M 2 5 5 0)%Z).
